@@ -124,6 +124,16 @@ def decide_problem(res, prob, replay_kind="one"):
         res.evals += 1
         if not close((bprobs * rates).sum(), 1.0, 1e-9):
             bad("bins/rates-do-not-average-to-one", bprobs=bprobs, rates=rates)
+        # the rates themselves from the definition of the discrete gamma, with the bin probabilities the harness set
+        own_bp = np.array(prob["bprobs"], dtype=float) if prob.get("bprobs") else np.ones(bins) / bins
+        own_rates = M.gamma_bin_rates(prob["rate_shape"], own_bp)
+        res.evals += 1
+        res.count("gamma-bin-rates-checked:" + ("unequal-bprobs" if prob.get("bprobs") else "equal-bprobs"))
+        if not np.allclose(bprobs, own_bp / own_bp.sum(), rtol=1e-9, atol=1e-12):
+            bad("bins/reported-bprobs-differ-from-those-set", reported=bprobs, set=own_bp)
+        elif not np.allclose(rates, own_rates, rtol=1e-6, atol=1e-9):
+            bad("bins/rates-differ-from-discrete-gamma-definition", reported=rates, expected=own_rates, bprobs=bprobs, shape=prob["rate_shape"])
+        rates = own_rates
     else:
         bprobs = np.array([1.0])
         rates = np.array([1.0])
@@ -264,7 +274,10 @@ def run_case(case):
                 scoped = True
             if rng.random() < 0.3 and model not in M.SOLVED:  # closed-form models have no expm setting
                 expm_setting = rng.choice(["eigen", "pade", "either", "checked"])
-            prob = M.gen_problem(rng, model, scoped=scoped, bins=bins, expm_setting=expm_setting, hmm=hmm)
+            prob = M.gen_problem(rng, model, scoped=scoped, bins=bins, expm_setting=expm_setting, hmm=hmm, tip_scopes=True)
+            if prob.get("edge_param_how"):
+                how_ = next(iter(prob["edge_param_how"].values()))
+                res.count("scope-by-tip-names:" + ("stem" if how_.get("stem") else "") + ("+clade" if how_.get("clade", not how_.get("stem", False)) else ""))
             if i % 4 == 1:
                 prob["early_queries"] = True  # the function is queried (and refuses) before its alignment is given
                 res.count("function-queried-before-alignment")
@@ -393,5 +406,5 @@ def decide_discrete(res, rng, model):
 
 
 def required(counters, tier):
-    need = ["hmm-bins", "polytomy", "with-ambiguity", "scoped", "binned", "binned-unequal-bprobs", "solved-P", "zero-length-edge", "all-columns-sum", "L2-rate-matrix", "L3-exponential", "L1-pruning"]
+    need = ["hmm-bins", "gamma-bin-rates-checked:unequal-bprobs", "scope-by-tip-names:stem", "scope-by-tip-names:+clade", "function-queried-before-alignment", "polytomy", "with-ambiguity", "scoped", "binned", "binned-unequal-bprobs", "solved-P", "zero-length-edge", "all-columns-sum", "L2-rate-matrix", "L3-exponential", "L1-pruning"]
     return [n for n in need if not counters.get(n)]
